@@ -1,5 +1,25 @@
 from orchestrate.common import run_check
 
+import re
+
+
+def _stat(ln, key):
+    m = re.search(r"[ ,]%s=(\d+)" % key, ln)
+    return int(m.group(1)) if m else 0
+
+
+def _e2e_cov(lines):
+    e = [ln for ln in lines if ln.startswith("E ")]
+    return {
+        "e2e_scenarios": len(e),
+        "e2e_successful_use_calls": sum(_stat(ln, "ok") for ln in e),
+        "e2e_request_frames_checked": sum(_stat(ln, "fr") for ln in e),
+        "e2e_request_frames_after_successful_use": sum(_stat(ln, "strict") for ln in e),
+        "e2e_scenarios_with_strict_frames": sum(1 for ln in e if _stat(ln, "strict") > 0),
+        "e2e_requests_abandoned_after_3s": sum(_stat(ln, "slow") for ln in e),
+    }
+
+
 SPEC = {
     "pid": "C20",
     "coq_targets": ["Props/C20.vo", "Extract/ExC20.vo"],
@@ -10,13 +30,23 @@ SPEC = {
              "x both case flags, every length 0..60 of a valid and of a two-byte character, every ASCII character alone "
              "and inside a valid name, every outcome list of length <= 3, then seeded random cases: N = name validation "
              "(VerifiedKeyspaceName::new), V = check of a USE response, A = aggregation of per-connection results; "
-             "non-trivial = every case; distinct = distinct case lines"),
-    "nontrivial": lambda ln: True,
+             "e2e part: E = one seeded scenario (150 quick / 6000 thorough) of a real Session against mocknode: 1-3(+2 added) nodes, "
+             "0-3 shards, pool 1-3 connections, 5-16 steps out of use_keyspace (valid / unknown / invalid names; answers normal, "
+             "delayed, refused, unanswered, cutting the connection; racing requests and connection kills; two calls at once), "
+             "request bursts, kill all connections of a node, close one connection, add a node, sleep; always ending with a "
+             "clean use + kill + requests; non-trivial = N/V/A cases and E scenarios with at least one request frame checked "
+             "strictly after a successful use; distinct = distinct case lines"),
+    "nontrivial": lambda ln: (not ln.startswith("E ")) or _stat(ln, "strict") > 0,
+    "extra_coverage": lambda lines, verdicts: _e2e_cov(lines),
+    "runner_timeout": 3000,
     "trusted_base": [
+        "vh::mocknode (scripted CQL mock cluster): per connection the keyspace acknowledged so far; the runner's handler records request-frame arrivals and client-side call/return/start events in one mutex-ordered sequence",
         "hook scylla::client::verif_keyspace (pass-through to VerifiedKeyspaceName::new, Connection::verify_use_keyspace_result, cluster::use_keyspace_result)",
         "valid_name / parse_use are the name grammar and statement shape transcribed from the property text",
     ],
     "assumptions": [
+        "use_keyspace calls that overlap with a different name are outside the guarantee (documented API contract); the acceptor then only requires one of the names in play",
+        "pool model granularity: one select! arm of PoolRefiller::run, one submission / one answer of a USE, one connection break = one atomic step; per-connection USE frames are answered in submission order (one TCP stream)",
         "strings are modelled as lists of Unicode scalar values (chars().count(); eq_ignore_ascii_case on UTF-8 bytes = comparison of scalar values with A-Z folded)",
     ],
 }
